@@ -24,7 +24,8 @@ RULE = ('bounded: every contract of C06 evaluated natively on each labelled mole
 EXCUSED = ('sssr-independent', 'sssr-minimal', 'sssr-size-multiset', 'sssr-sizes-numbering')
 BASIS_THEOREMS = ('atom-in_ring-oracle', 'bond-in_ring-oracle')
 MAX_REPORT = 25      # new violations listed per contract
-ITEM_BUDGET_S = 240  # watchdog per work item (a normal item takes < 2 s)
+ITEM_BUDGET_S = 60   # watchdog per work item (a normal item takes < 2 s); after a first timeout in a worker: 5 s, after five: skip
+_TIMEOUTS = [0]      # per worker process
 
 # the 18-atom witness found by the seeded assemblies on the unchanged tree (seed independent, run every time): cyclopentane fused on
 # an 8-ring, a 4-ring spiro/fused at atom 9 and a 3-atom bridge; contains the theta core 3/5/5, so it is inside gap A
@@ -245,6 +246,7 @@ def _work_graph(item):
         gap = O.gap(g0)
         src = _estr(oedges)
         ident = f'{name}:{vname}:{hashlib.sha1(src.encode()).hexdigest()[:8]}'
+        gaps['variants'] += 1
         if gap:
             gaps['inputs:' + gap.split('=')[0]] += 1
         seen_sizes = {}
@@ -309,7 +311,7 @@ def _work_smiles(item):
     g0, gall, orders = O.graphs(m)
     exp = O.mcb_sizes(g0)
     gap = O.gap(g0)
-    gaps = Counter()
+    gaps = Counter(variants=1)
     if gap:
         gaps['inputs:' + gap.split('=')[0]] += 1
     nodes = list(m._atoms)
@@ -374,12 +376,17 @@ def _work(item):
 
     def on_alarm(sig, frame):
         raise _Watchdog()
+    label = 'timeout:' + str(item[1])[:160] + ' ' + str(item[2])[:80]
+    if _TIMEOUTS[0] >= 5:
+        return 0, [], [], [], {label + ' (skipped after five timeouts in this worker)': 0}
+    budget = ITEM_BUDGET_S if not _TIMEOUTS[0] else 5
     old = signal.signal(signal.SIGALRM, on_alarm)
-    signal.alarm(ITEM_BUDGET_S)
+    signal.alarm(budget)
     try:
         return _work_smiles(item[1:]) if item[0] == 'mol' else _work_graph(item[1:])
     except _Watchdog:
-        return 0, [], [], [], {'timeout:' + str(item[1])[:160] + ' ' + str(item[2])[:80]: ITEM_BUDGET_S}
+        _TIMEOUTS[0] += 1
+        return 0, [], [], [], {label: budget}
     finally:
         signal.alarm(0)
         signal.signal(signal.SIGALRM, old)
@@ -428,7 +435,7 @@ def bounded(run):
             check_graphs.append(g)
         run.bound(f'exhaustive: every connected graph with 8 atoms, <= 3 rings, degree <= 4 ({len(g8)} graphs; generator checked against '
                   f'the known counts 23/89/236/486 before the degree filter), same variants, {ntr} labellings each')
-    n_asm = 1500 if thorough else 120
+    n_asm = 3000 if thorough else 120
     r = D.rnd('b06:assemblies')
     for i in range(n_asm):
         g, ops = G.ring_assembly(r, 8, 30)
@@ -439,7 +446,7 @@ def bounded(run):
             g = G.disjoint([g, g2])
             ops = ops + ['|'] + ops2
         add_graph('random', f'asm{i}[' + ' '.join(ops) + ']', g, 1, aromatic=(i % 4 == 0))
-    n_mac = 200 if thorough else 24
+    n_mac = 300 if thorough else 24
     r = D.rnd('b06:macro')
     for i in range(n_mac):
         g, ops = G.macrocycle(r)
@@ -451,7 +458,7 @@ def bounded(run):
         add_graph('named', name, g, 1, aromatic=False, trials=ntr if thorough or g.number_of_nodes() <= 12 else 2)
     run.bound(f'named: {len(cages)} classic condensed systems and cages (ladders, grids, hexagonal lattices, prisms, Moebius ladders, '
               'cubane, dodecahedrane, Petersen, Heawood ...; most are inside gap A, where count / simple cycles / marks stay enforced)')
-    n_cor = 1000 if thorough else 100
+    n_cor = 1500 if thorough else 100
     for s in D.corpus_sample(n_cor, 'b06:corpus'):
         items.append(('mol', 'smiles', s, 3))
         dom.append('corpus')
@@ -490,7 +497,7 @@ def bounded(run):
     # heavy items first for a balanced pool
     order = sorted(range(len(items)), key=lambda i: -(len(items[i][3] or ()) if items[i][0] == 'graph' else 30))
     res = pmap(_work, [items[i] for i in order], chunksize=4)
-    stats = {d: {'molecules': 0, 'graph_variants_inside_gap': Counter(), 'excused_contract_failures': Counter(), 'graph_variants_with_excused_failures': 0}
+    stats = {d: {'molecules': 0, 'graph_variants': 0, 'graph_variants_inside_gap': Counter(), 'excused_contract_failures': Counter(), 'graph_variants_with_excused_failures': 0}
              for d in ('exhaustive', 'random', 'named', 'corpus', 'cycle.sdf', 'fixed')}
     examples = []
     skipped, timeouts = [], []
@@ -523,6 +530,8 @@ def bounded(run):
                 hit.add(k[11:].split(' ')[0])
                 if len(examples) < 12 or d == 'fixed':
                     examples.append(f'[{d}] ' + k[11:][:300])
+            elif k == 'variants':
+                st['graph_variants'] += v
             elif k.startswith('inputs:'):
                 st['graph_variants_inside_gap'][k[7:]] += v
             else:
@@ -545,14 +554,15 @@ def bounded(run):
     fx = stats['fixed']
     run.notes['gap_hits'] = {
         'total_graph_variants_with_excused_failures': total_hits,
-        'per_domain': {d: {'molecules_evaluated': s['molecules'], 'graph_variants_inside_gap': dict(s['graph_variants_inside_gap']),
+        'per_domain': {d: {'molecules_evaluated': s['molecules'], 'graph_variants': s['graph_variants'], 'graph_variants_inside_gap': dict(s['graph_variants_inside_gap']),
                            'excused_contract_failures': dict(s['excused_contract_failures']),
                            'graph_variants_with_excused_failures': s['graph_variants_with_excused_failures']} for d, s in stats.items()},
         'fixed_18_atom_witness': ('gap A is real on this tree: ' + '; '.join(e[8:] for e in examples if e.startswith('[fixed]')))
         if fx['graph_variants_with_excused_failures'] else 'the fixed 18-atom gap-A witness satisfied every contract on this tree',
         'examples': examples[:12]}
     print(f'C06 bounded: gap_hits={total_hits} ' + ' '.join(
-        f'{d}: inside={sum(s["graph_variants_inside_gap"].values())} hit={s["graph_variants_with_excused_failures"]}' for d, s in stats.items()), flush=True)
+        f'{d}: inside={sum(s["graph_variants_inside_gap"].values())}/{s["graph_variants"]} hit={s["graph_variants_with_excused_failures"]}'
+        for d, s in stats.items()), flush=True)
 
 
 def replay(rec):
